@@ -2167,6 +2167,7 @@ def emit(A, out_path, sidecar_path=None):
                             min([f.node.lineno] + [d.lineno for d in f.node.decorator_list]),
                             getattr(f.node, "end_lineno", f.node.lineno), f.fid] for f in A.funcs.values()},
             tests={str(tid): key for key, (tid, _) in A.tests.items()},
+            edges=[[e[0], e[1], e[2], list(e[3])] for e in edges],
             # self-audit of the blind spots (lands in evidence/C11.json notes on every run)
             audit=dict(
                 dynamic_attr_sites_in_closure=sum(1 for e in A.effs if e[1] == "DynamicAttr"),
